@@ -35,6 +35,10 @@ for p in ("feems", "machinery-system-structure", "RunFEEMSSim"):
     if sp not in sys.path:
         sys.path.insert(0, sp)
 os.environ.setdefault("SINTEF_FEEMS_VERIF", "1")
+import logging  # noqa: E402
+logging.disable(logging.CRITICAL)   # the repo logs every rejected input; the checks count them instead
+import warnings  # noqa: E402
+warnings.filterwarnings("ignore")
 
 
 class HarnessError(Exception):
